@@ -18,7 +18,7 @@ Definition p_d12 : stmts :=
 
 Theorem C09_sound_refuted :
   exists T p e g t o,
-    check_program T as_is p = Ok (e, g) /\ ssruns T false [] p t o /\
+    check_program T restored p = Ok (e, g) /\ ssruns T false [] p t o /\
     ~ all_events fread_ok [[]] [] t.
 Proof.
   exists (tabs_of ct1 [] [] p_d12), p_d12. eexists. eexists. eexists. eexists.
@@ -53,7 +53,7 @@ Ltac invruns :=
 Theorem C09_complete_paths_refuted :
   exists T p,
     (forall t o, ssruns T false [] p t o -> preceded [] t) /\
-    check_program T as_is p = Rej KUndef.
+    check_program T restored p = Rej KUndef.
 Proof.
   exists (tabs_of ct1 [] [] p_d13), p_d13. split; [|vm_compute; reflexivity].
   intros t o H. unfold p_d13 in H. invruns; cbn; auto.
@@ -68,7 +68,7 @@ Definition p_d11 : stmts :=
 
 Theorem C07_sound_refuted :
   exists T p e g t o,
-    check_program T as_is p = Ok (e, g) /\ ssruns T false [] p t o /\
+    check_program T restored p = Ok (e, g) /\ ssruns T false [] p t o /\
     ~ all_events (fldwrite_ok (t_fld T)) [[]] [] t.
 Proof.
   exists (tabs_of ct1 [] [(2, false)] p_d11), p_d11. eexists. eexists. eexists. eexists.
@@ -106,9 +106,11 @@ Definition p_method : stmts :=
   SCons (SSimple (XDef true [50] (Some EConst)))
   (SCons (SFun 2 [] [] false (SCons (SSimple (XExpr (EMCall 50 2 ENil))) SNil)) SNil).
 
-Definition unguarded (T : tabs) (p : stmts) : Prop :=
-  exists e g t o, check_program T as_is p = Ok (e, g) /\ ssruns T false [] p t o /\
+Definition unguarded_in (md : mode) (T : tabs) (p : stmts) : Prop :=
+  exists e g t o, check_program T md p = Ok (e, g) /\ ssruns T false [] p t o /\
                   ~ all_events (raise_ok (t_cls T)) [[]] [] t.
+(** [unguarded]: under the rule set before the repair c08_handle_restores *)
+Definition unguarded (T : tabs) (p : stmts) : Prop := unguarded_in as_is T p.
 
 Lemma no_guard ct c : ~ (exists g : cls, In g [] /\ ancestor ct g c).
 Proof. intros [g [[] _]]. Qed.
@@ -147,9 +149,11 @@ Proof.
     repeat match goal with X : exists g : cls, False /\ _ |- _ => destruct X as [? [[] _]] end.
 Qed.
 
-Theorem C08_method_raises_unchecked : unguarded (tabs_of ct1 [(2, [1])] [] p_method) p_method.
+Theorem C08_method_raises_unchecked_in md : m_methods md = false ->
+  unguarded_in md (tabs_of ct1 [(2, [1])] [] p_method) p_method.
 Proof.
-  eexists. eexists. eexists. eexists. split; [vm_compute; reflexivity|]. split.
+  intros HM. destruct md as [r m]. cbn in HM. subst m.
+  eexists. eexists. eexists. eexists. split; [destruct r; vm_compute; reflexivity|]. split.
   - unfold p_method. eapply RSCons.
     + apply RSimple. apply RXDef. apply RConst.
     + eapply RSCons; [|apply RSNil]. eapply RFunBody. eapply RSConsA. apply RSimple. apply RXExpr.
@@ -158,8 +162,23 @@ Proof.
     repeat match goal with X : exists g : cls, False /\ _ |- _ => destruct X as [? [[] _]] end.
 Qed.
 
+Theorem C08_method_raises_unchecked : unguarded (tabs_of ct1 [(2, [1])] [] p_method) p_method.
+Proof. exact (C08_method_raises_unchecked_in as_is eq_refl). Qed.
+
 Theorem C08_sound_refuted : exists T p, unguarded T p.
 Proof. eexists. eexists. exact C08_leak_after_handle. Qed.
+
+(** the code as it now is: still refuted, by the method call alone *)
+Theorem C08_sound_refuted_restored : exists T p, unguarded_in restored T p.
+Proof. eexists. eexists. exact (C08_method_raises_unchecked_in restored eq_refl). Qed.
+
+(** the three leaks of the old rule set are rejected by the code as it now is *)
+Example leaks_rejected_restored :
+  verdict_restored ct1 [] [] p_leak_after = VReject KUnhandled /\
+  verdict_restored ct1 [] [] p_leak_arm = VReject KUnhandled /\
+  verdict_restored ct1 [] [] p_leak_fun = VReject KUnhandled /\
+  verdict_restored ct1 [(2, [1])] [] p_method = VAccept.
+Proof. repeat split; vm_compute; reflexivity. Qed.
 
 (** all four are rejected by the repaired threading, i.e. they lie in the known class *)
 Example known_class_contains_witnesses :
